@@ -24,9 +24,9 @@ type dAB struct {
 	B string `json:"b"`
 }
 type dABp struct {
-	A *int         `json:"a"`
-	B *dABp        `json:"b"`
-	C []dAB        `json:"A"` // exact-case key "A" vs case-insensitive fallback of "a"
+	A *int  `json:"a"`
+	B *dABp `json:"b"`
+	C []dAB `json:"A"` // exact-case key "A" vs case-insensitive fallback of "a"
 }
 type dIface struct {
 	A interface{}
@@ -82,8 +82,8 @@ type c01cfg struct {
 	name   string
 	api    sonic.API
 	ref    func(doc []byte, dst interface{}) error // reference decode
-	strict bool                                   // std-compatible: no input filter
-	int64  bool                                   // UseInt64: reference derived from UseNumber
+	strict bool                                    // std-compatible: no input filter
+	int64  bool                                    // UseInt64: reference derived from UseNumber
 }
 
 func c01cfgs() []c01cfg {
@@ -498,6 +498,22 @@ func init() {
 		Run: func(c *ev.Ctx, r *ev.Report) {
 			seen := ev.NewHashSet(29)
 			n := 0
+			// field-lookup stratum first (cheap): wide structs x documents naming each field
+			c01fieldCases(c, func(t gen.TypeCase, doc []byte) bool {
+				for ci := range cfgs {
+					cfg := &cfgs[ci]
+					if cfg.int64 || strings.Contains(cfg.name, "UseNumber") {
+						continue
+					}
+					r.Evaluations++
+					r.Count("field_lookup_cases", 1)
+					c.SetCase(fmt.Sprintf(`{"cfg":%q,"type":%q,"doc_hex":"%x"}`, cfg.name, t.Name, doc))
+					if v := c01judge(cfg, t, doc); v != nil {
+						r.Violate(*v)
+					}
+				}
+				return true
+			})
 			c01docs(c, c.Thorough(), func(doc []byte) bool {
 				n++
 				if n&0xff == 0 && c.Expired() {
@@ -550,6 +566,9 @@ func init() {
 					if t.Name == cs.Type {
 						return c01judge(&cfgs[ci], t, doc)
 					}
+				}
+				if t := c01fieldTypeByName(cs.Type); t != nil {
+					return c01judge(&cfgs[ci], *t, doc)
 				}
 			}
 			return nil
